@@ -18,10 +18,11 @@ from vf.gen import pg, pgrun, pgstrat
 PROP = "C07"
 LEVEL = "exploration"
 RULE = (
-    "Task sets of 2-3 tasks drawn from: PG program render (with providers/inject), PG render with an injected failure, first compilation + render of inline "
+    "Task sets of 2-3 tasks drawn from: PG program render (with providers/inject), PG render with an injected failure, render of a page with asset-carrying components followed by "
+    "render_dependencies (document / fragment), first compilation + render of inline "
     "templates through a template cache of size 1-2, first access of .media/.js/.css on a fresh class hierarchy, first compilation of templates with component tags; "
     "schedules = (a) every single pre-emption point k (exhaustive over the baseline's yield points) for fixed task pairs, (b) Hypothesis-generated lists of <=4 pre-emptions, "
-    "(c) PCT-style priority schedules with <=3 priority change points. Yield points = lines of django-components touching process-global state (vf/sched.py:KEYWORDS + all of util/cache.py). "
+    "(c) PCT-style priority schedules with <=3 priority change points. Yield points = lines of django-components touching process-global state (vf/sched.py: names of module-level mutable objects and `global` declarations found in the syntax tree of the code under test, plus KEYWORDS for attribute-held state, plus all of util/cache.py). "
     "Oracle: each task's normalised result (output / exception type+message) equals its solo result; after join all six registries are empty and the template LRU's linked list agrees with its dict. "
     "Non-trivial = the executed schedule contains >=1 effective switch between two tasks that both visited a common global-state line; distinct by (task set, schedule)."
 )
@@ -31,9 +32,10 @@ ASSUMPTIONS = [
     "watchdog aborts (a task blocked on a real lock held by a parked thread) are inconclusive, never violations",
     "context_behavior and template_cache_size are process-wide settings, fixed per case",
 ]
-BOUNDS = {"quick": {"hyp": 480, "single_pairs": 9, "double_pairs": 2}, "thorough": {"hyp": 40000, "single_pairs": 18, "double_pairs": 4}}
+BOUNDS = {"quick": {"hyp": 480, "single_pairs": 11, "double_pairs": 2}, "thorough": {"hyp": 40000, "single_pairs": 20, "double_pairs": 4}}
 CFG = {"provide": True, "inject": True, "errors": False, "isfilled": False, "max_nodes": 3, "max_comps": 2, "max_depth": 2, "provide_weight": 3, "inject_pct": 70, "ticks": True, "hooks": False, "elems": True}
 
+CFG_ASSETS = {"assets": True, "errors": False, "isfilled": False, "max_nodes": 3, "max_comps": 3, "max_depth": 2, "elems": True}
 SRCS = ["A{{ v }}", "B{% if v %}{{ v }}{% endif %}", "C{{ v|upper }}", "D{% for i in v %}{{ i }}{% endfor %}", "E"]
 
 
@@ -84,6 +86,22 @@ def build_tasks(case):
                 vf_tags.TICK["fn"] = None  # tag/filter ticks are process-global: only gcd/inject ticks are used here
                 out = Template(src).render(Context(dict(ctx)))
                 return normalize_ids(out)  # ids kept (renamed by first appearance): a lost / foreign data-djc-id attribute is a difference, sorted(map(tuple, rec.injected))
+
+            tasks.append(run)
+        elif kind == "deps":
+            # render + dependency post-processing (render_dependencies), components with inline and Media assets
+            prog = prefix_program(t["program"], "t%d" % i)
+            rec = pg.Recorder(5000)
+            classes, src = pg.build(prog, rec, name_prefix="t%d" % i)
+            ctx = dict(prog["page"]["ctx"])
+
+            def run(src=src, ctx=ctx, typ=t.get("type", "document")):
+                from django_components import render_dependencies
+                from vf import vf_tags
+
+                vf_tags.TICK["fn"] = None
+                out = Template("<html><head></head><body>" + src + "</body></html>").render(Context(dict(ctx)))
+                return normalize_ids(render_dependencies(out, typ))
 
             tasks.append(run)
         elif kind == "compile":
@@ -334,6 +352,8 @@ def check_double(case, col=None):
 @st.composite
 def task(draw):
     r = draw(st.integers(0, 9))
+    if r < 1:
+        return {"t": "deps", "program": draw(pgstrat.programs(CFG_ASSETS)), "type": draw(st.sampled_from(["document", "fragment"]))}
     if r < 4:
         return {"t": "render", "program": draw(pgstrat.programs(CFG))}
     if r < 6:
@@ -385,6 +405,23 @@ _ELEM = {
     ],
     "page": {"ctx": {}, "tpl": [C("c0"), C("c2")]},
 }
+A_ = lambda name, tpl, **kw: dict({"name": name, "params": [], "data": [], "tpl": tpl}, **kw)  # noqa: E731
+# two pages with different sets of asset-carrying components
+_ASSETS1 = {
+    "comps": [
+        A_("c0", [T("A"), C("c1")], js="/*js_a0*/", css="/*css_a0*/", media={"js": ["a0.js", "shared.js"], "css": {"all": ["a0.css"]}}),
+        A_("c1", [T("B")], js="/*js_a1*/", css=None, media={"js": ["a1.js"], "css": None}),
+    ],
+    "page": {"ctx": {}, "tpl": [C("c0"), C("c1")]},
+}
+_ASSETS2 = {
+    "comps": [
+        A_("c0", [T("X")], js=None, css="/*css_b0*/", media={"js": None, "css": {"print": ["b0.css"]}}),
+        A_("c1", [T("Y"), C("c0")], js="/*js_b1*/", css="/*css_b1*/", media={"js": ["b1.js", "shared.js"], "css": None}),
+        A_("c2", [T("Z")], js="/*js_b2*/", css=None, media=None),
+    ],
+    "page": {"ctx": {}, "tpl": [C("c2"), C("c1")]},
+}
 DOUBLE_PAIRS = [
     {"tasks": [{"t": "fail", "program": _PROV2, "at": 3}, {"t": "render", "program": _PROV2}], "mode": "django", "cache_size": 2, "focus": ["provide.py"]},
     {"tasks": [{"t": "render", "program": _PROV2}, {"t": "fail", "program": _PROV2, "at": 2}], "mode": "isolated", "cache_size": 2, "focus": ["provide.py"]},
@@ -393,6 +430,8 @@ DOUBLE_PAIRS = [
 ]
 FIXED_PAIRS = [
     {"tasks": [{"t": "filecomp", "how": 0}, {"t": "filecomp", "how": 1}], "mode": "django", "cache_size": 2},
+    {"tasks": [{"t": "deps", "program": _ASSETS1, "type": "document"}, {"t": "deps", "program": _ASSETS2, "type": "document"}], "mode": "django", "cache_size": 2},
+    {"tasks": [{"t": "deps", "program": _ASSETS2, "type": "fragment"}, {"t": "deps", "program": _ASSETS1, "type": "document"}], "mode": "isolated", "cache_size": 2},
     {"tasks": [{"t": "render", "program": _ELEM}, {"t": "render", "program": _ELEM}], "mode": "django", "cache_size": 2},
     {"tasks": [{"t": "render", "program": _ELEM}, {"t": "fail", "program": _ELEM, "at": 3}], "mode": "isolated", "cache_size": 2},
     {"tasks": [{"t": "compile", "srcs": [0, 0, 0, 0]}, {"t": "compile", "srcs": [1, 2, 1, 3]}], "mode": "django", "cache_size": 1},
